@@ -1,6 +1,8 @@
 """C11 - matching methods return exactly what `re` finds, compiled or not.
 
 R-DUAL   the compiled and the uncompiled arm are the same `re` entry point on the same text
+R-SOURCE every matching method hands `re` exactly the caller's text (witnesses with a BOM, line endings, blanks, NUL and
+         the source's own string constants at the edges)
 R-FLAGS  one flag constant = MULTILINE|DOTALL, used by both arms, compile() and replace()
 R-CACHE  typestate of the compiled cache (who may write; get_compiled_pattern semantics)
 R-WRAP   get_* == list(iterate_*) with every parameter forwarded to its namesake
@@ -171,6 +173,8 @@ def run(ctx, model):
                                   f"{meth} returns {v!r} when re's {entry} {'finds a match' if has else 'finds nothing'}",
                                   f.node.lineno, inp=inp)
     ctx.floor("R-DUAL", ctx.rule_counts.get("R-DUAL", 0), 12, "dual-path evaluations")
+    # both arms must be applied to exactly the caller's text (edge-sensitive witnesses: BOM, line endings, blanks ...)
+    MM.subject_rule(ctx, model, "R-SOURCE", sorted(MM.matching_methods(model)))
 
     # ---------------- R-CACHE
     from ..absdom import cache_field
